@@ -140,7 +140,7 @@ fn frames() -> Vec<Frame> {
         specs.push(("declared-unit-error", m));
     }
     for p in ["", "\"parameters\":null", "\"parameters\":{}", "\"parameters\":{\"code\":1,\"why\":\"w\"}", "\"parameters\":{\"code\":\"x\",\"why\":2}",
-        "\"parameters\":{\"code\":1}", "\"parameters\":{\"code\":1,\"why\":\"w\",\"extra\":true}", "\"parameters\":{\"a\":1,\"b\":\"x\"}",
+        "\"parameters\":{\"code\":1}", "\"parameters\":{\"code\":7,\"why\":\"tab\\there \\\"quoted\\\" back\\\\slash \\u00e9\"}", "\"parameters\":{\"code\":1,\"why\":\"w\",\"extra\":true}", "\"parameters\":{\"a\":1,\"b\":\"x\"}",
         "\"parameters\":{\"code\":340282366920938463463374607431768211455,\"why\":\"w\"}", "\"parameters\":{\"code\":1,\"why\":\"12345678901234567890123456789012345678901234567890\"}"] {
         let mut m = vec![s("\"error\":\"a.Bad\"")];
         if !p.is_empty() { m.push(s(p)); }
@@ -166,7 +166,9 @@ fn frames() -> Vec<Frame> {
     let svc: [(&str, &str); 6] = [("InterfaceNotFound", "interface"), ("MethodNotFound", "method"), ("MethodNotImplemented", "method"), ("InvalidParameter", "parameter"), ("PermissionDenied", ""), ("ExpectedMore", "")];
     for (n, field) in svc {
         let right = if field.is_empty() { String::new() } else { format!("\"parameters\":{{\"{field}\":\"x.Y\"}}") };
-        let variants = [right.clone(), s("\"parameters\":null"), s("\"parameters\":{}"), s("\"parameters\":{\"zzz\":1}"), format!("\"parameters\":{{\"{}\":5}}", if field.is_empty() { "q" } else { field }), s("\"parameters\":{\"a\":1,\"b\":\"x\"}")];
+        // (the parameter text also with characters that JSON must or may escape: such a string cannot be borrowed from the message)
+        let escaped = if field.is_empty() { String::new() } else { format!("\"parameters\":{{\"{field}\":\"C:\\\\dir\\\\x.Y \\\"q\\\" line\\nbreak \\u00e9 \\/\"}}") };
+        let variants = [right.clone(), escaped, s("\"parameters\":null"), s("\"parameters\":{}"), s("\"parameters\":{\"zzz\":1}"), format!("\"parameters\":{{\"{}\":5}}", if field.is_empty() { "q" } else { field }), s("\"parameters\":{\"a\":1,\"b\":\"x\"}")];
         for p in variants {
             let mut m = vec![format!("\"error\":\"org.varlink.service.{n}\"")];
             if !p.is_empty() { m.push(p); }
